@@ -367,6 +367,18 @@ func RunC08(env *Env, rep *Report) {
 	for _, b := range bodies {
 		cases = append(cases, c08Case([]string{"inline", "table:i,p", "inline"}, b), c08Case([]string{"table:i,i", "table:p,i"}, b))
 	}
+	// a table with 12 rows (row indices of two digits), inline and plain
+	cases = append(cases, c08Case([]string{"table:i,i,i,i,i,i,i,i,i,i,i,i"}, "cmd"), c08Case([]string{"table:p,i,p,p,p,p,p,p,p,p,i,i"}, "cmd"))
+	// operators in a row's var / value expression ('%' among them)
+	for _, op := range []string{"%", "+", "*"} {
+		cs := c08Case([]string{"table:i,p"}, "cmd")
+		ms := cs.Prog.Tops[0].(*MapScriptsTop)
+		rows := ms.Entries[0].Rows
+		rows[0].Value = append(rows[0].Value, L(op), L("4"))
+		rows[1].Cond = append(rows[1].Cond, L(op), L("2"))
+		cs.Name = "c08/row-expression-operator/" + op
+		cases = append(cases, cs)
+	}
 	rep.Technique = "symbolic execution of the real mapscripts parser and emitter (go/ssa) with symbolic names; rope assertions on header and tables + SMT-discharged bisimulation of every inline script against its body as a script"
 	rep.Explanation = "Bounded symbolic verification, not a proof. Every mapscripts entry list up to the length bound over {plain, inline, table with up to the row bound of plain/inline rows} is compiled by symbolic execution of the real code with all type names, labels, table conditions and values symbolic, inline bodies rotating over {one command, command+end, if/else with end, while with conditional break, empty, a command with an inline text, a command with a moves() argument, a single goto}; plus one file whose plain entries and plain rows target a script and a (global) label defined in the same file. Asserted: the header label, the map_script lines of the plain and inline entries in source order followed by those of the tables in source order, '.byte 0'; for every table its label, its map_script_2 triples in source order and '.2byte 0'; every inline script (entry or table row) is defined exactly once under the label the header/row carries and is bisimilar (for every game state) to its body written as a script statement."
 	rep.Bounds = map[string]interface{}{"max_entries": maxLen, "max_rows_per_table": maxRows, "inline_bodies": bodies, "cases": len(cases)}
